@@ -29,7 +29,10 @@ BadDescs == Flatten2([i \in DOMAIN GridSeq |->
 
 Descs == MyCases(WholeDescs \o AlongDescs \o BadDescs)
 
-D == "any,ties,zero,wide,offset,noffset,any"
+(* hugemix: magnitudes near 1.5e308 whose signs alternate along every dimension (every fibre and the row-major order have *)
+(* bounded partial sums although two neighbours of equal sign would overflow); offset160: a common offset of 1e160 with a *)
+(* relative spread of 1e-9 (deviations near 1e151: their squares are finite, the squares of the values are not)           *)
+D == "any,ties,zero,wide,offset,noffset,any,hugemix,offset160"
 Build(d) ==
   CASE d[1] = "w" ->
          LET a == SymT("a", d[2])
